@@ -152,7 +152,7 @@ def gen_case(rng, focus):
         if focus == "refuse":
             pick = rng.choice(["missing_idx", "missing_sub", "wrong_len", "ro_write", "wo_read",
                                "novalue", "toggle_ul", "toggle_dl", "repeat_seg", "unknown", "block_dl", "ok_dl",
-                               "ok_ul", "var_sub", "cross"])
+                               "ok_ul", "var_sub", "cross", "abandon"])
         else:
             pick = rng.choice(["ok_dl", "ok_dl", "ok_ul", "ok_ul", "ok_ul", "garbage", "restart",
                                "block_ul", "missing_sub", "wrong_len", "toggle_ul", "cross"])
@@ -168,6 +168,28 @@ def gen_case(rng, focus):
                 it["stop_after"] = k
                 script.append(it)
                 script.append({"k": "raw", "d": [0x60 | ((k % 2) << 4), 0, 0, 0, 0, 0, 0, 0]})
+            script.append({"k": "ul", "idx": idx, "sub": sub})
+            continue
+        if pick == "abandon":
+            # a segmented transfer given up half way (by an abort frame of the client or simply by the next
+            # initiate request) leaves nothing behind: the next one starts with toggle 0 again
+            k = rng.choice([1, 1, 2, 3])
+            if rng.random() < 0.5:
+                script.append({"k": "ul", "idx": idx, "sub": sub, "stop_after": k})
+            else:
+                it = dl_item(rng, idx, sub, rand_bytes_for(rng, enc.DOMAIN, rng.randrange(22, 40)), force_seg=True)
+                it["stop_after"] = k
+                script.append(it)
+            if rng.random() < 0.5:
+                script.append({"k": "raw", "d": [0x80, idx & 0xFF, idx >> 8, sub, 0, 0, 4, 5]})
+            nxt = rng.choice(["ul_bad", "dl_bad", "ul", "dl"])
+            if nxt.startswith("ul"):
+                it = {"k": "ul", "idx": idx, "sub": sub}
+            else:
+                it = dl_item(rng, idx, sub, rand_bytes_for(rng, enc.DOMAIN, rng.randrange(8, 40)), force_seg=True)
+            if nxt.endswith("bad"):
+                it["bad_toggle_at"] = 0
+            script.append(it)
             script.append({"k": "ul", "idx": idx, "sub": sub})
             continue
         if pick == "ok_ul":
